@@ -41,9 +41,25 @@ static const char* const TEMPLATES[] = {
   "D1:==X1%sX2", "A1:==X1%pX2", "S1::=\xE2\x84\xAC(X1\xC3\x97X2)", "X1:==",
   "F1:==[\xCE\xB1\xE2\x88\x88X1,\xCE\xB2\xE2\x88\x88\xE2\x84\xAC(X1)] \xCE\xB1%p\xCE\xB2", "[\xCE\xB1\xE2\x88\x88R1\xC3\x97R2] pr1(\xCE\xB1)%sX1",
   "\xCE\xB1" "1%p\xCF\x89_2", "%i%s1", "X1%p%i", "Z%s{%i}", "\xE2\x88\x85%pX1",
+  "Pr1,3,2(X1\xC3\x97X1\xC3\x97X1)%sX1", "pr3,1,2((X1,X2,X3))", "Fi1,2,3[X1,X1,X1](X1\xC3\x97X1\xC3\x97X1)", "Fi3,1[S1](X1\xC3\x97X1\xC3\x97X1)", "Pr2,1,3,1(S1)", "pr10,2(S1)",
 };
 static const int NTEMPL = sizeof(TEMPLATES) / sizeof(TEMPLATES[0]);
 
+// structural equality through the cursor API: token ids, payloads (names, integers, index lists), nesting -
+// independent of Token::ToString / AST2String.  ignoreLocalNames: ASCII transliterates Greek locals.
+static bool sameTree(SyntaxTree::Cursor a, SyntaxTree::Cursor b, bool ignoreLocalNames) {
+  if (a->id != b->id || a.ChildrenCount() != b.ChildrenCount()) return false;
+  const auto& x = a->data; const auto& y = b->data;
+  if (x.HasValue() != y.HasValue()) return false;
+  if (x.HasValue()) {
+    if (x.IsInt() != y.IsInt() || x.IsText() != y.IsText() || x.IsTuple() != y.IsTuple()) return false;
+    if (x.IsInt() && x.ToInt() != y.ToInt()) return false;
+    if (x.IsText() && !(ignoreLocalNames && a->id == TokenID::ID_LOCAL) && x.ToText() != y.ToText()) return false;
+    if (x.IsTuple() && x.ToTuple() != y.ToTuple()) return false;
+  }
+  for (Index i = 0; i < a.ChildrenCount(); ++i) if (!sameTree(a.Child(i), b.Child(i), ignoreLocalNames)) return false;
+  return true;
+}
 static void roundTrip(const SyntaxTree& tree) {
   const std::string want = AST2String::Apply(tree);
   std::string mathText;
@@ -57,8 +73,9 @@ static void roundTrip(const SyntaxTree& tree) {
     if (ok) {
       // in ASCII Greek locals are transliterated: compare against the tree of the converted text's
       // own MATH reading is not possible, so compare structure after printing both back in ASCII
-      if (s == 0) sym_assert(AST2String::Apply(again.AST()) == want, "math-roundtrip-tree");
+      if (s == 0) { sym_assert(AST2String::Apply(again.AST()) == want, "math-roundtrip-tree"); sym_assert(sameTree(again.AST().Root(), tree.Root(), false) && again.AST() == tree, "math-roundtrip-tree-structural"); }
       else {
+        sym_assert(sameTree(again.AST().Root(), tree.Root(), true), "ascii-roundtrip-tree-structural");
         Parser viaMath;   // the same tree printed in ASCII must equal the ASCII print of the re-parsed tree
         sym_assert(Generator::FromTree(again.AST(), Syntax::ASCII) == text, "ascii-print-is-fixpoint");
         const std::string backMath = ConvertTo(text, Syntax::MATH);
